@@ -228,6 +228,7 @@ func (im *impl) observe() (obs string, raw string) {
 		}()
 		return name + "=" + out
 	}
+	sb.WriteString(q("size", func() string { return fmt.Sprint(im.sim.CoreSize(), im.sim.MaxCycles()) }) + " ")
 	sb.WriteString(q("cycles", func() string { return fmt.Sprint(im.sim.CycleCount()) }) + " ")
 	sb.WriteString(q("count", func() string { return fmt.Sprint(im.sim.WarriorCount()) }) + " ")
 	sb.WriteString(q("living", func() string { return fmt.Sprint(im.sim.WarriorLivingCount()) }) + " ")
@@ -254,6 +255,9 @@ func (im *impl) observe() (obs string, raw string) {
 	for i, h := range im.hs {
 		sb.WriteString(q(fmt.Sprintf("alive%d", i), func() string { return fmt.Sprint(h.Alive()) }) + " ")
 		sb.WriteString(q(fmt.Sprintf("len%d", i), func() string { return fmt.Sprint(h.Length()) }) + " ")
+		sb.WriteString(q(fmt.Sprintf("name%d", i), func() string {
+			return h.Name() + "/" + h.Author() + "/" + fmt.Sprint(strings.Count(h.LoadCode(), "\n"))
+		}) + " ")
 		// Queue and NextPC are compared only where the model specifies them; raw keeps them for the state key
 		rb.WriteString(q(fmt.Sprintf("queue%d", i), func() string {
 			qs := h.Queue()
@@ -278,6 +282,7 @@ func (im *impl) observe() (obs string, raw string) {
 // expected renders what R-api says the same queries return.
 func (md *model) expected() (obs string, queues []string, nexts []string) {
 	var sb strings.Builder
+	fmt.Fprintf(&sb, "size=%d %d ", M, Cycles)
 	fmt.Fprintf(&sb, "cycles=%d count=%d living=%d core=%s ", md.m.Cycles, len(md.kinds), md.m.Living, hx.CoreStr(md.m.Core))
 	for _, a := range []uint64{M, 2*M + 3} {
 		fmt.Fprintf(&sb, "mem%d=%s ", a, hx.InsStr(md.m.Core[a%M]))
@@ -291,7 +296,9 @@ func (md *model) expected() (obs string, queues []string, nexts []string) {
 		}
 	}
 	for i, w := range md.m.Ws {
-		fmt.Fprintf(&sb, "alive%d=%v len%d=%d ", i, w.Alive, i, len(kindData(md.kinds[i]).Code))
+		kd := kindData(md.kinds[i])
+		// the listing has one line per instruction plus the ORG line ('94)
+		fmt.Fprintf(&sb, "alive%d=%v len%d=%d name%d=%s/%s/%d ", i, w.Alive, i, len(kd.Code), i, kd.Name, kd.Author, len(kd.Code)+1)
 		if md.pending[i] {
 			queues = append(queues, "?")
 			nexts = append(nexts, "?")
